@@ -96,6 +96,9 @@ func main() {
 			os.Exit(2)
 		}
 		fn.WriteTo(os.Stdout)
+		if os.Getenv("EVALSA_BOUNDS") != "" {
+			newBoundsCtx(w).analyse(fn).dump()
+		}
 		return
 	}
 
